@@ -195,6 +195,8 @@ def scenario(n_clients, with_bg, answer_order, chooser, sync_timeout=2.0, timeou
                 ch.inq.append(brine.dump((consts.MSG_REPLY, q, (consts.LABEL_VALUE, "p%d" % c))))
             # everything answered: let the background thread stop once the clients are done
             S.block(lambda: all(i in out["return_time"] for i in range(n_clients)), S.now + 10 * (sync_timeout or 2.0), why="peer-wait-clients")
+            if with_bg:
+                S.block(lambda: stop["bg"] is not None, S.now + 100, why="peer-wait-bg")     # the background thread may not have started yet
             if stop["bg"] is not None:
                 stop["bg"]._active = False
         for i in range(n_clients):
